@@ -189,6 +189,9 @@ def run(ctx):
     from rules.c01 import emitted_fields
     enc = repo.func("Codec.encode")
     em = emitted_fields(enc, fo)
+    if not {"34", "52"} <= {t for t, e, c, lst in em}:
+        raise AnalysisError("Codec.encode: the fields the encoder emits itself are not recognised (no `'%s=%s' % (FTag.MsgSeqNum, …)` / SendingTime emission found): "
+                            "which header tags a replayed copy must lose is not visible")
     emitted = {t for t, e, c, lst in em} | {"10", "35"}  # CheckSum / MsgType are emitted through string formatting
     from rules.c01 import encoder_skip_set
     skip = encoder_skip_set(enc, fo) or set()
